@@ -34,6 +34,15 @@ impl<T> Vec<T> {
     self.as_mut_slice().swap(index, last);
     self.pop().unwrap()
   }
+  pub fn capacity(&self) -> usize { VCAP }
+  pub fn reserve(&mut self, _n: usize) {}
+  pub fn shrink_to_fit(&mut self) {}
+  pub fn truncate(&mut self, n: usize) { while self.len > n { let _ = self.pop(); } }
+  pub fn insert(&mut self, index: usize, x: T) { assert!(index <= self.len, "insertion index out of bounds"); self.push(x); let mut k = self.len - 1; while k > index { self.as_mut_slice().swap(k, k - 1); k -= 1; } }
+  pub fn remove(&mut self, index: usize) -> T { assert!(index < self.len, "removal index out of bounds"); let mut k = index; while k + 1 < self.len { self.as_mut_slice().swap(k, k + 1); k += 1; } self.pop().unwrap() }
+  pub fn retain<F: FnMut(&T) -> bool>(&mut self, mut f: F) { let mut i = 0; while i < self.len { if f(&self.as_slice()[i]) { i += 1; } else { let _ = self.remove(i); } } }
+  pub fn drain(&mut self, _r: ::std::ops::RangeFull) -> IntoIter<T> { ::std::mem::replace(self, Self::new()).into_iter() }
+  pub fn append(&mut self, other: &mut Self) { let o = ::std::mem::replace(other, Self::new()); for x in o { self.push(x); } }
   pub fn as_slice(&self) -> &[T] { unsafe { ::std::slice::from_raw_parts(self.a.as_ptr() as *const T, self.len) } }
   pub fn as_mut_slice(&mut self) -> &mut [T] { unsafe { ::std::slice::from_raw_parts_mut(self.a.as_mut_ptr() as *mut T, self.len) } }
 }
